@@ -381,6 +381,12 @@ class FileSaver(strax.Saver):
                 self.md["chunks"].append(json.load(f))
             os.remove(fn)
 
+        if self.is_forked and self.md["chunks"]:
+            # The chunks were only collected just now (they were saved by
+            # forked savers): update to precise start and end values
+            self.md["start"] = self.md["chunks"][0]["start"]
+            self.md["end"] = self.md["chunks"][-1]["end"]
+
         self._flush_metadata()
 
         os.rename(self.tempdirname, self.dirname)
